@@ -112,6 +112,8 @@ def generate(prng, tier, index):
           "samples": prng.choice((1, 1, 2, 3))}
     if variant == "faults":
         sc["abort_at"] = prng.randrange(0, sc["N"] + 4)
+        if prng.random() < 0.4:
+            sc["abort_line"] = prng.randrange(0, 60)
         sc["samples"] = max(2, sc["samples"])
     return sc
 
@@ -228,7 +230,10 @@ def execute(sc, ctx):
     faulted = False
     for r in range(sc.get("samples", 1)):
         abort_at = sc.get("abort_at") if (r == 0 and sc["variant"] == "faults") else None
-        st, res = ctx.call(src, obj.sample_jds_from_jdd, sc["N"], abort_at=abort_at, budget=20000, label="sample")
+        if abort_at is not None and sc.get("abort_line") is not None:
+            st, res = ctx.call(src, obj.sample_jds_from_jdd, sc["N"], abort_at_line=sc["abort_line"], budget=20000, label="sample[interrupted at line]")
+        else:
+            st, res = ctx.call(src, obj.sample_jds_from_jdd, sc["N"], abort_at=abort_at, budget=20000, label="sample")
         tag = " (sample after an aborted one on the same object)" if faulted else (" (repeated sample)" if r else "")
         if st == "abort":
             faulted = True
